@@ -198,6 +198,12 @@ def imax (bits : Nat) : Int := (2 ^ (bits - 1) : Int) - 1
 @[inline] def castIU (toBits : Nat) (a : Int) : Nat := wrapU toBits a
 @[inline] def castII (toBits : Nat) (a : Int) : Int := wrapI toBits a
 @[inline] def boolToNat (b : Bool) : Nat := if b then 1 else 0
+/-- `o as iN` for `o : core::cmp::Ordering`, a `#[repr(i8)]` enum with the explicit discriminants
+    `Less = -1`, `Equal = 0`, `Greater = 1`: the cast yields the discriminant (in range of every signed width) -/
+@[inline] def orderingToInt : Ordering → Int
+  | .lt => -1
+  | .eq => 0
+  | .gt => 1
 
 /-! ### slices (values only: a slice is the list of its elements) -/
 
